@@ -48,7 +48,7 @@ DEFAULTS = {
     "thorough": {"budget_s": 900, "chunk": 100, "per_run_wall": 120,
                  "minimise_s": 300},
 }
-REQUIRED_PROBES = ["match_on_tree_position_0", "only_pair_is_0_0", "perm_reverse",
+REQUIRED_PROBES = ["other_index_built_in_between", "match_on_tree_position_0", "only_pair_is_0_0", "perm_reverse",
                    "perm_random", "perm_identity", "haversine", "kdtree",
                    "unit_string_radius", "duplicates_in_build", "large_build",
                    "empty_answer"]
@@ -126,6 +126,9 @@ def gen_workload(tape):
         w["tree"] = "Ball"
     w["leaf"] = tape.pick([None, 1, 2, 40, 7], "leaf")
     w["shuffle"] = not tape.flag("noshuffle", 1, 6)
+    # history: other indexes (same or other size) are built between building
+    # this one and querying it - they must not disturb it
+    w["other_indexes"] = tape.pick([0, 0, 1, 2], "others")
     w["perm"] = tape.pick(["random", "match0", "reverse", "identity", "match0"], "perm")
     w["perm_seed"] = tape.choice(10 ** 6, "permseed")
     qs = []
@@ -270,6 +273,20 @@ def run_one(tape, only=None):
             index = None
         if index is not None:
             perm = used_perm.get("p")
+            for k in range(w["other_indexes"]):
+                # same number of points (k == 0) or one more, other positions
+                m_ = n + k
+                rs = np.random.RandomState(w["perm_seed"] + 17 + k)
+                saved = dict(used_perm)
+                try:
+                    GeoIndex(rs.uniform(-80, 80, m_), rs.uniform(-170, 170, m_),
+                             metric=w["metric"], tree_class=w["tree"],
+                             shuffle=w["shuffle"], **kw)
+                except Exception:  # noqa: not the object under test
+                    pass
+                used_perm.clear()
+                used_perm.update(saved)
+                probe("other_index_built_in_between")
             if w["shuffle"]:
                 probe("perm_" + ("random" if w["perm"] == "random" else
                                  "reverse" if w["perm"] == "reverse" else
